@@ -205,6 +205,15 @@ pub fn suite_qualmap(ctx: &Ctx, thorough: bool) {
                     for (_, val) in q.iter_mut() { val.push('#'); }
                     for val in m.values_mut() { val.push('#'); }
                     check_rep(ctx, &q, &m, "get_mut + iter_mut");
+                    // IndexMut: writes through to the entry of that key in any letter case; panics only when absent (documented)
+                    let present = valid(k) && m.contains_key(&lk);
+                    let w = guarded(|| { q[*k] = SmallString::from("via-index-mut"); });
+                    match (w, present) {
+                        (Ok(()), true) => { m.insert(lk.clone(), "via-index-mut".to_string()); },
+                        (Err(_), false) => {},
+                        (o, _) => ctx.violate("C11.index", "index_mut writes to the entry of the key in any letter case; panics only when absent", json!({"content": format!("{c:?}"), "key": k}), format!("{o:?}"), format!("present={present}")),
+                    }
+                    check_rep(ctx, &q, &m, "index_mut");
                     push(&build(&c));
                 }
             }
@@ -224,6 +233,27 @@ pub fn suite_qualmap(ctx: &Ctx, thorough: bool) {
                 all.push((k.to_ascii_uppercase(), "y".to_string()));
                 if Qualifiers::try_from_iter(all.iter().filter(|_| true).map(|(k, v)| (k.as_str(), v.as_str()))).is_ok() {
                     ctx.violate("C11.dup", "construction refuses a key repeated in any case (iterator with inexact size hint)", json!(k), "Ok".into(), "Err".into());
+                }
+                // exact size hint, the duplicate (with a different and with the same value) first, in the middle and last
+                for dv in ["y", c[c.len() / 2].1.as_str()] {
+                    for at in [0, c.len() / 2, c.len()] {
+                        let mut all: Vec<(String, String)> = c.clone();
+                        all.insert(at, (c[c.len() / 2].0.to_ascii_uppercase(), dv.to_string()));
+                        ctx.eval();
+                        if Qualifiers::try_from_iter(all.iter().map(|(k, v)| (k.as_str(), v.as_str()))).is_ok() {
+                            ctx.violate("C11.dup", "construction refuses a key repeated in any case", json!({"pairs": all.len(), "duplicate_at": at, "duplicate_value": dv}), "Ok".into(), "Err".into());
+                        }
+                    }
+                }
+                // iterators whose size hint has nothing to do with what they yield
+                {
+                    ctx.eval();
+                    let n = c.len();
+                    let r = guarded(|| Qualifiers::try_from_iter((0..usize::MAX).take_while(|i| *i < n).map(|i| (c[i].0.as_str(), c[i].1.as_str()))));
+                    match r { Ok(Ok(q)) => check_rep(ctx, &q, &m0, "try_from_iter(huge upper bound)"), other => ctx.violate("C06.panic", "construction from a lawful iterator with a huge size-hint upper bound neither panics nor fails", json!(n), format!("{:?}", other.map(|x| x.is_ok())), "Ok".into()) }
+                    let mut i = 0usize;
+                    let r = guarded(|| Qualifiers::try_from_iter(std::iter::from_fn(|| { let x = c.get(i).map(|(k, v)| (k.as_str(), v.as_str())); i += 1; x })));
+                    match r { Ok(Ok(q)) => check_rep(ctx, &q, &m0, "try_from_iter(from_fn)"), other => ctx.violate("C06.panic", "construction from an iterator without a size hint neither panics nor fails", json!(n), format!("{:?}", other.map(|x| x.is_ok())), "Ok".into()) }
                 }
                 match Qualifiers::try_from_iter(c.iter().filter(|_| true).map(|(k, v)| (k.as_str(), v.as_str()))) {
                     Ok(q) => check_rep(ctx, &q, &m0, "try_from_iter(filter)"),
